@@ -752,6 +752,9 @@ class LibsModel:
             return join(el, dflt).w(deps=d)
         if name == 'setdefault':
             k, v = args[0], (args[1] if len(args) > 1 else const(None))
+            if recv.instance_dict_of is not None:
+                # obj.__dict__.setdefault(name, {}): a value that lives on the object across calls
+                return v.w(fresh=None, persistent=True, store=f'instance:{cval(k) if has_const(k) else "?"}')
             if has_const(k) and isinstance(cval(k), str):
                 kw = dict(recv.kw or {})
                 if cval(k) not in kw or recv.open_kw:
